@@ -889,7 +889,9 @@ static void tecmpEnumerate(const TTask& t, bool thorough, Fn fn)
     }
     else if (t.part == 'X')   // message type t.a (all 256) x data types x payload lengths x length byte
     {
-        std::vector<uint16_t> dts = {2, 3, 4, 8, 0x10, 0x20, 0x80, 0, 1, 0xFF, 0xFF00, 0x1234};
+        // defined types, undefined ones, and values whose LOW byte is a supported type while the high byte is not zero
+        // (and vice versa): a dispatch on a truncated or swapped data type must not convert them
+        std::vector<uint16_t> dts = {2, 3, 4, 8, 0x10, 0x20, 0x80, 0, 1, 0xFF, 0xFF00, 0x1234, 0x0102, 0x8003, 0xFF04, 0x0104, 0x0200, 0x0300, 0x0400, 0x0202};
         for (uint16_t dt : dts)
             for (int plen = 0; plen <= 40; ++plen)
             {
@@ -1302,7 +1304,7 @@ int main(int argc, char** argv)
         C02Ctx ctx = makeC02(thorough);
         run.rule = fmt("%zu well-formed CMP/TECMP seed frames x {as is, EVERY truncation, every byte set to {00,01,7F,80,FF,orig-1,orig+1}, every adjacent byte pair set to "
                        "{0000,FFFF,7FFF,8000,0100,00FF,remaining-1,remaining,remaining+1}, zero/0xFF extensions up to 64 KiB} x 4 decoder pre-states; TECMP sweep "
-                       "(256 message types x 12 data types x payload length 0..40 x 13 length bytes); all ordered pairs%s of a %zu-element sub-corpus on one decoder; "
+                       "(256 message types x 20 data types x payload length 0..40 x 13 length bytes); all ordered pairs%s of a %zu-element sub-corpus on one decoder; "
                        "oracle: ASan/UBSan clean, input unchanged, <= len/12 packets, packets non-null with payload, digest of every getter/byte/typed accessor "
                        "unchanged after input release, ten more frames and decoder destruction; distinct = distinct result digests",
                        ctx.seeds.size(), thorough ? " and triples" : "", ctx.sub.size());
